@@ -1,5 +1,7 @@
 import HappyProofs.C07.NoPast
 import HappyProofs.C07.Rearm
+import HappyProofs.C07.Ranked
+import HappyProofs.C07.Timers
 /-!
 # C07 — property theorems
 
@@ -29,9 +31,16 @@ What Lean carries (on the engine model of C01, for **every** `Machine`, i.e. eve
   (`Rearm.chain`) handles each boundary once, in order, never before the clock, exactly at the boundary's
   instant (`chain_length_le`, `chain_not_past`, `chain_indices`, `chain_exact`).
 
+* `Timers.*` (file `Timers.lean`) — three more timer idioms that produced real defects: the periodic daemon
+  `next = now + interval` (`tick_progress`, `guarded_tick_at_most_once_per_instant`, `tick_zero_spins`), the
+  "interval 0 = disabled" manual tick (`disabled_manual_tick_schedules_nothing`, `old_disabled_tick_spins`) and
+  events collected across yields (`warmupNew_never_past`, `warmupOld_past_iff`).
+
 Whether each *library component* satisfies `EmitsGeNow` and terminates its instants is not a Lean
 statement here (components have no model in C07): the monitored scenario runs decide it, judged by
-`Holds`.  The general progress statement for handlers that may emit at `now` is `finite_per_instant_ranked`.
+`Holds`.  The general progress statement for handlers that may emit at `now` with a decreasing rank is
+`finite_per_instant_ranked`, proved as `finite_per_instant_ranked_holds` / `deliveries_at_instant_ranked_bound`
+(file `Ranked.lean`); `rank_hypothesis_needed` shows the rank hypothesis cannot be dropped.
 -/
 namespace HappyModel.C07
 open HappyModel.C01
@@ -86,9 +95,10 @@ theorem instant_does_not_feed_itself (mc : Machine σ) (hS : StrictFuture mc) (e
     ∀ e ∈ (runFrom mc ent start pre endT n).log, e.born < e.time ∨ e.id < pre.length :=
   (run_fore mc hS pre.length endT n _ (init_fore ent start pre)).log
 
-/-- The general statement (not proved): a handler may emit at `now` provided a rank decreases; then
-    the deliveries at one instant are bounded by a function of the ranks pending when the clock got
-    there.  Library components that forward at `now` fall under this, not under `StrictFuture`. -/
+/-- The general statement: a handler may emit at `now` provided a rank decreases; then the deliveries at
+    one instant are bounded by a function of the ranks pending when the clock got there.  Library
+    components that forward at `now` fall under this, not under `StrictFuture`.
+    Proved below (`finite_per_instant_ranked_holds`). -/
 def finite_per_instant_ranked : Prop :=
   ∀ (σ : Type) (mc : Machine σ) (rank : Ev → Nat) (fan : Nat),
     (∀ ent now ev, ((mc.handle ent now ev).specs.length ≤ fan) ∧
@@ -96,6 +106,43 @@ def finite_per_instant_ranked : Prop :=
     (∀ e : Ev, rank e = e.data) →
     ∀ (endT : Option Nat) (s : St σ) (t : Nat), t ≤ s.now →
       ∃ B, ∀ n, delivAt (run mc endT n s) t ≤ B
+
+/-- **T3** the explicit bound: deliveries at `t` never exceed those already made plus, for every event
+    pending for `t` when the clock reached `t`, the size `W fan rank` of the complete `fan`-ary tree of
+    depth `rank` — for every handler that emits at `now` only with a strictly smaller rank, every
+    run length, every end time -/
+theorem deliveries_at_instant_ranked_bound (mc : Machine σ) (fan : Nat) (hR : Ranked mc fan)
+    (endT : Option Nat) (n : Nat) (s : St σ) (t : Nat) (ht : t ≤ s.now) :
+    delivAt (run mc endT n s) t ≤ delivAt s t + wsum fan s.heap t := by
+  have := run_potential mc fan hR endT n s t ht
+  unfold potential at this
+  omega
+
+theorem finite_per_instant_ranked_holds : finite_per_instant_ranked := by
+  intro σ mc rank fan hR _ endT s t ht
+  exact ⟨delivAt s t + wsum fan s.heap t, fun n => deliveries_at_instant_ranked_bound mc fan hR endT n s t ht⟩
+
+/-- a zero-delay relay chain: every hop forwards at the same instant with one hop less to go -/
+def relayMachine : Machine Unit :=
+  { handle := fun _ now e => { ent := (), specs := if e.data = 0 then [] else [⟨now, 0, 0, false, e.data - 1, 0⟩] } }
+
+theorem relayMachine_ranked : Ranked relayMachine 1 := by
+  intro ent now ev
+  unfold relayMachine
+  by_cases h : ev.data = 0
+  · simp [h]
+  · simp [h]; omega
+
+/-- non-vacuity: the relay chain is `Ranked` but not `StrictFuture`; an event with 5 hops to go makes
+    exactly `W 1 5 = 6` deliveries at its instant — the bound is attained -/
+example :
+    ¬ StrictFuture relayMachine ∧
+    delivAt (runFrom relayMachine () 0 [⟨3, 0, 0, false, 5, 0⟩] (some 10) 20) 3 = 6 ∧
+    delivAt (init () 0 [⟨3, 0, 0, false, 5, 0⟩] : St Unit) 3 + wsum 1 (init () 0 [⟨3, 0, 0, false, 5, 0⟩] : St Unit).heap 3 = 6 := by
+  refine ⟨?_, by decide, by decide⟩
+  intro h
+  have := h () 7 ⟨0, 7, 0, 0, false, 1, 0, 0⟩ ⟨7, 0, 0, false, 0, 0⟩ (by simp [relayMachine])
+  simp at this
 
 /-! ### the zero-delay poll: `EmitsGeNow` alone does not bound an instant -/
 
@@ -145,6 +192,20 @@ theorem spin_witness_unbounded (n : Nat) :
     obtain ⟨i, _, rfl⟩ := he
     simp
   simp [delivAt, spinState, hall]
+
+/-- the rank hypothesis cannot be dropped: the zero-delay poll emits at `now` with the same rank, and no
+    bound on its deliveries at instant 0 holds for all run lengths -/
+theorem rank_hypothesis_needed :
+    (∀ fan, ¬ Ranked spinMachine fan) ∧
+    ¬ ∃ B, ∀ n, delivAt (run spinMachine (some 10) n (spinState 0)) 0 ≤ B := by
+  constructor
+  · intro fan h
+    have := (h () 0 ⟨0, 0, 0, 0, false, 0, 0, 0⟩).2 ⟨0, 0, 0, false, 0, 0⟩ (by simp [spinMachine])
+    simp at this
+  · rintro ⟨B, hB⟩
+    have h1 := hB (B + 1)
+    rw [(spin_witness_unbounded (B + 1)).1] at h1
+    omega
 
 /-! ### the judge is the predicate -/
 
